@@ -9,7 +9,7 @@ Not decided: round-trip equality of programs."""
 import os
 import re
 import grammar
-from core import enum_matches, select_arms, V, walk
+from core import enum_matches, select_arms, V, walk, calls
 from kit import need_body, string_literals, thir_all, short
 
 RENDER = "<chalk_solve::rust_ir::%s as chalk_solve::display::render_trait::RenderAsRust>::fmt"
@@ -190,3 +190,35 @@ def run(ck, facts, tier):
                 else:
                     ck.violation(R, inst, wb.where(), "the writer emits the word `%s` which is not a terminal of the grammar" % w)
     ck.floor(R, "emitted-words", n_w, 30)
+
+    R = "C22.NO-FILTER"
+    ck.rule(R, "K6-style inventory: inside the writer (chalk_solve::display::*) every iterator adaptor that can drop or pick elements "
+               "(filter, filter_map, skip, take, skip_while, take_while, step_by, find, nth, last, dedup, unique) is in the audited table "
+               "with its reason; a new one means some bound / clause / field / parameter of a datum may not be printed")
+    ADAPT = {"filter", "filter_map", "skip", "take", "skip_while", "take_while", "step_by", "find", "find_map", "nth", "last", "dedup", "unique", "position"}
+    AUDIT = {
+        ("<chalk_ir::TyKind as render_trait::RenderAsRust>::fmt", "filter_map"): (2, "AssociatedType: picks the *type* parameters to find Self (assert count>=1; first one printed as `<X as ..>`); the full substitution is printed separately"),
+        ("<chalk_solve::rust_ir::TraitDatum as render_trait::RenderAsRust>::fmt", "skip"): (1, "skip(1): the trait's own Self parameter is implicit in `trait Name<..>`"),
+        ("state::InternalWriterState::indent", "take"): (1, "builds the indentation string"),
+    }
+    seen = {}
+    for key, b in sorted(facts.bodies("chalk_solve").items()):
+        if "chalk_solve::display" not in key or b.thir is None or "{" in key:
+            continue
+        for t in thir_all(facts, b):
+            for c in calls(t):
+                fn = str(c.get("fn", ""))
+                ad = fn.split("::")[-1]
+                if ad in ADAPT and ("Iterator" in fn or "Itertools" in fn or "iter::" in fn):
+                    k2 = (key.replace("chalk_solve::display::", ""), ad)
+                    seen.setdefault(k2, []).append((b, c.get("ln")))
+    for k2, sites in sorted(seen.items()):
+        inst = "%s:%s" % (k2[0], k2[1])
+        if k2 in AUDIT and len(sites) <= AUDIT[k2][0]:
+            ck.ok(R, inst, AUDIT[k2][1][:120])
+        else:
+            b, ln = sites[-1]
+            ck.violation(R, inst, b.where(ln), "%d use(s) of `.%s(..)` in a writer function (audited: %d): the writer must print every element "
+                         "of the datum; an adaptor that drops elements needs an audit entry with its reason"
+                         % (len(sites), k2[1], AUDIT.get(k2, (0, ""))[0]))
+    ck.floor(R, "audited-adaptor-sites", sum(len(v) for v in seen.values()), 3)
